@@ -20,4 +20,5 @@ import (
 	_ "verif/props/c16"
 	_ "verif/props/c17"
 	_ "verif/props/c18"
+	_ "verif/props/c19"
 )
